@@ -477,11 +477,17 @@ def _run(case, scratch):
     plans.append(('exists_raises:%s' % name, ('exists_raises', name)))
   plans.append(('missing:root', ('missing', root)))
   plans.append(('entry', None))
+  plans.append(('earlier_copy_appears', None))
+  plans.append(('absolute_name_is_not_package_relative', None))
   for label, plan in plans:
     if only and label != only:
       continue
     if label == 'clean':
       scenario('clean')
+    elif label == 'earlier_copy_appears':
+      _earlier_copy(case, scratch, v, lg, cnt)
+    elif label == 'absolute_name_is_not_package_relative':
+      _abs_vs_package(case, scratch, v, lg, cnt)
     elif label == 'entry':
       _entry(case, scratch, v, lg, cnt)
     elif plan[0] == 'missing':
@@ -520,6 +526,92 @@ def _run(case, scratch):
       'sample_obs': {'locations': case['locations'],
                      'readers': reader_sequence(case)},
   }
+
+
+def _earlier_copy(case, scratch, v, lg, cnt):
+  """After a first parse, a copy of some file appears in an EARLIER (location,
+  reader) cell; the next parse must resolve to it (the search is done per
+  parse, in registration order)."""
+  import random
+  gin = world.gin
+  root = case['names'][0]
+  target = None
+  for name in case['names']:
+    if os.path.isabs(name) or name.startswith(('vpk', 'plaind')):
+      continue
+    cell = resolve(case, name)
+    first = ('', 'sim%d' % case['reader_order'][0])
+    if cell is not None and tuple(cell) != first and cell[1] != 'real' and \
+        list(first) not in case['cells'][name]:
+      target = (name, first)
+      break
+  if target is None:
+    return
+  name, first = target
+  _clean_scratch(scratch)
+  world.reset()
+  fs = _setup(case, scratch)
+  try:
+    gin.parse_config_file(root)
+  except Exception:  # pylint: disable=broad-except
+    return
+  case2 = copy.deepcopy(case)
+  case2['cells'][name].append(list(first))
+  applied1, err1, _ = simulate(case, root)
+  applied2, err2, _ = simulate(case2, root)
+  if err1 or err2 or not any(s.get('k') == 'include' and s['file'] == name
+                             for st in case['files'].values() for s in st) and \
+      name != root:
+    return
+  text = _content(case2, name, first[0], first[1],
+                  random.Random(case['layout_seed'] ^ 9))
+  fs.table.setdefault(int(first[1][3:]), {})[os.path.join(first[0], name)] = text
+  exc = None
+  try:
+    gin.parse_config_file(root)
+  except Exception as e:  # pylint: disable=broad-except
+    exc = e
+  got = _snapshot()
+  lg.add('earlier_copy_appears', name, type(exc).__name__ if exc else None, got)
+  cnt['heal_reparse'] += 1
+  want = _twin(case2, scratch, applied1 + applied2)
+  if exc is not None:
+    v('C14.parse_succeeds', ['second-parse', type(exc).__name__],
+      'second parse after a copy of %s appeared in an earlier cell raised %r' %
+      (name, exc))
+  elif got != want:
+    v('C14.search_order_each_parse', [],
+      'a copy of %s appeared in the earlier cell %r after the first parse; the '
+      'second parse must resolve to it.\n got  %r\n want %r' %
+      (name, first, got, want))
+
+
+def _abs_vs_package(case, scratch, v, lg, cnt):
+  """An absolute name bypasses the search locations and is not package-relative:
+  if nobody can read it, it is an IOError - even when its directory components
+  happen to spell an importable package that holds a file of that name."""
+  gin = world.gin
+  _clean_scratch(scratch)
+  world.reset()
+  _setup(case, scratch)
+  path = os.path.join(scratch, 'pyroot', 'vpk0', 'sub', 'only_in_package.gin')
+  os.makedirs(os.path.dirname(path), exist_ok=True)
+  with open(path, 'w') as f:
+    f.write("f0.a = 'from-the-package'\n")
+  exc = None
+  try:
+    gin.parse_config("f0.b = 'before'\ninclude '/vpk0/sub/only_in_package.gin'\n")
+  except Exception as e:  # pylint: disable=broad-except
+    exc = e
+  got = _snapshot()
+  lg.add('abs_vs_package', type(exc).__name__ if exc else None, got)
+  if exc is None:
+    v('C14.absolute_bypasses_search', [],
+      "include '/vpk0/sub/only_in_package.gin' (no such absolute file) was "
+      'served from the package vpk0.sub on the Python path: %r' % got)
+  elif not isinstance(exc, OSError):
+    v('C14.missing_is_ioerror', ['absolute', type(exc).__name__],
+      'unreadable absolute name raised %s' % type(exc).__name__)
 
 
 def _entry(case, scratch, v, lg, cnt):
@@ -587,7 +679,8 @@ def _entry(case, scratch, v, lg, cnt):
 
 def shrinks(case):
   if not case.get('only'):
-    labels = ['clean', 'entry', 'missing:root']
+    labels = ['clean', 'entry', 'missing:root', 'earlier_copy_appears',
+              'absolute_name_is_not_package_relative']
     for name, si, target in _include_sites(case):
       labels.append('missing:%s#%d' % (name, si))
     for name in case['names']:
